@@ -8,6 +8,5 @@ CONSTANTS
   QueueCap = 1000000
   MaxFail = 1000000
   MaxExpire = 1000000
-  SliceLock = FALSE
   TraceFile = "c14_trace.ndjson"
 CHECK_DEADLOCK FALSE
